@@ -56,7 +56,10 @@ ASSUMPTIONS = [
 def thetas(tier):
     base = [0.0, PI / 2, -PI / 2, PI, 3 * PI / 2, 2 * PI, PI / 4, 0.3]
     near = [k * PI / 2 + s * e for k in (0, 1, 2) for e in (1e-10, 1e-6) for s in (1, -1)]
+    # a little further from the quarter turns: inside any relative tolerance window of order 1e-5 * |theta|
+    near += [k * PI / 2 + s * e for k in (1, 2, 4) for e in (1e-5, 6e-5) for s in (1, -1)]
     if tier == 'thorough':
+        near += [k * PI / 2 + s * e for k in (-2, -1, 3, 40) for e in (1e-5, 6e-5, 3e-4) for s in (1, -1)]
         base += [-PI, 3 * PI, -3 * PI / 2, 5 * PI / 2, 4 * PI, -2 * PI, PI / 3, -PI / 4, 3 * PI / 4, 1.0, 2.5,
                  -0.7, 5 * PI / 6, 7.0, PI / 12]
         near += [k * PI / 2 + s * e for k in (-2, -1, 3, 4) for e in (1e-10, 1e-6) for s in (1, -1)]
@@ -106,7 +109,7 @@ POLYS_T = {
 
 
 def rect_specs(tier):
-    ext = [[2, 1], [1, 3], [4, 0.02], [1.5, 1.5]] + ([[0.004, 0.001], [7, 2.5], [0, 1]] if tier == 'thorough' else [])
+    ext = [[2, 1], [1, 3], [4, 0.02], [1.5, 1.5], [40, 1]] + ([[0.004, 0.001], [7, 2.5], [0, 1]] if tier == 'thorough' else [])
     for (cx, cy), (w, h), t in itertools.product(centres(tier), ext, thetas(tier)):
         yield dict(kind='rect', p=[cx - w / 2, cx + w / 2, cy - h / 2, cy + h / 2, t])
 
